@@ -25,6 +25,12 @@ class Collector:
     def cover(self, clause):
         self.covers.add(clause)
 
+    def prove_via(self, clause, facts, goal, props=None, note=None):
+        """Cut rule for arithmetic-heavy goals: every fact is proved from the path, the goal from the facts alone."""
+        for k, f in enumerate(facts):
+            self.items.append((f"{clause}/fact[{k}]", f, list(self.c.pc), props, note, list(self.c.qhyps)))
+        self.items.append((f"{clause}", z3.Implies(z3.And(*[as_bool_term(f) for f in facts]), as_bool_term(goal)), [], props, note, []))
+
     def fail(self, clause, props=None, note=None):
         """An outcome that the contract forbids on every path reaching here."""
         self.items.append((clause, z3.BoolVal(False), list(self.c.pc), props, note, list(self.c.qhyps)))
@@ -81,40 +87,57 @@ def _index_terms(fs):
     return list(out.values())
 
 
-def instantiate(qhyps, base_formulas, extra_terms=(), rounds=2, cap=600):
-    """Instantiate the bounded-quantifier hypotheses at the index terms of the VC (two rounds)."""
+def instantiate(qhyps, base_formulas, extra_terms=(), goal_formulas=(), cap=1500):
+    """Instantiate the bounded-quantifier hypotheses at index terms of the VC.
+    Priority: (1) terms of the goal and its skolem constants, (2) terms those instances introduce,
+    (3) the remaining index terms of the path condition, (4) terms introduced by (3) -- until `cap`."""
     if not qhyps:
         return []
     inst = []
     done = set()
-    terms = {t.get_id(): t for t in list(_index_terms(base_formulas)) + list(extra_terms)}
-    frontier = list(terms.values())
-    for _ in range(rounds):
+    known = {}
+
+    def round_(terms):
         new = []
-        for q in qhyps:
-            for t in frontier:
+        for t in terms:
+            if t.get_id() in known:
+                continue
+            known[t.get_id()] = t
+            for q in qhyps:
+                if len(inst) + len(new) >= cap:
+                    return new
                 key = (id(q), t.get_id())
                 if key in done:
                     continue
                 done.add(key)
                 new.append(q.at(t))
-                if len(inst) + len(new) > cap:
-                    break
-        inst.extend(new)
-        more = [t for t in _index_terms(new) if t.get_id() not in terms]
-        for t in more:
-            terms[t.get_id()] = t
-        frontier = more
-        if not frontier:
-            break
+        return new
+    first = list(extra_terms) + _index_terms(goal_formulas)
+    r1 = round_(first)
+    inst.extend(r1)
+    r2 = round_(_index_terms(r1))
+    inst.extend(r2)
+    r3 = round_(_index_terms(base_formulas))
+    inst.extend(r3)
+    r4 = round_(_index_terms(r2 + r3))
+    inst.extend(r4)
     return inst
 
 
 def discharge_goal(pc, goal, inputs, qhyps, timeout_ms):
     """Goal may contain bounded quantifiers: skolemise them; instantiate hypothesis quantifiers."""
     from .logic import flatten_goal
+    from .logic import Via
     plain, qs = flatten_goal(goal)
-    parts = [(g, [], []) for g in plain]
+    parts = []
+    cuts = []
+    for g in plain:
+        if isinstance(g, Via):
+            for f in g.facts:
+                parts.append((f, [], []))
+            cuts.append(g)
+        else:
+            parts.append((g, [], []))
     for q in qs:
         _SK[0] += 1
         sk = z3.Int(f"sk!{q.name}!{_SK[0]}")
@@ -127,7 +150,7 @@ def discharge_goal(pc, goal, inputs, qhyps, timeout_ms):
         if z3.is_true(gs):
             r = dict(status="discharged", backend="z3-simplify", time_s=0.0, model=None)
         else:
-            inst = instantiate(qhyps, list(pc) + extra + [gs], extra_terms=sks)
+            inst = instantiate(qhyps, list(pc) + extra, extra_terms=sks, goal_formulas=[gs])
             r = discharge(list(pc) + extra + inst, gs, inputs, timeout_ms)
         if agg is None:
             agg = dict(r)
@@ -137,6 +160,13 @@ def discharge_goal(pc, goal, inputs, qhyps, timeout_ms):
                 agg.update(status="refuted", model=r["model"], backend=r["backend"])
             elif r["status"] == "undecided" and agg["status"] == "discharged":
                 agg.update(status="undecided", backend=r["backend"])
+    for cut in cuts:
+        r = discharge([], z3.Implies(z3.And(*cut.facts), cut.goal), inputs, timeout_ms)
+        agg["time_s"] += r["time_s"]
+        if r["status"] == "refuted" and agg["status"] != "refuted":
+            agg.update(status="refuted", model=r["model"], backend=r["backend"])
+        elif r["status"] == "undecided" and agg["status"] == "discharged":
+            agg.update(status="undecided", backend=r["backend"])
     return agg
 
 
@@ -201,8 +231,12 @@ def explore(job: Job, timeout_ms=10000, max_paths=50000):
             engine_error = f"path budget exceeded ({max_paths})"
             break
     clauses = {}
+    import os as _os
     for (cl, g, pc, props, note, inputs, qh) in vcs:
+        _t = time.time()
         r = discharge_goal(pc, g, inputs, qh, timeout_ms)
+        if _os.environ.get("PYCV_TRACE"):
+            print(f"   vc {cl[:90]:<90} pc={len(pc)} qh={len(qh)} {r['status']} {r['backend']} {time.time() - _t:.2f}s", flush=True)
         e = clauses.setdefault(cl, dict(clause=cl, status="discharged", vcs=0, time_s=0.0, backends=set(),
                                         model=None, props=props, note=None, smt_size=0))
         e["vcs"] += 1
